@@ -680,6 +680,55 @@ def clause_container_carry(facts, rep, nss):
     return n
 
 
+def clause_skip_literal(facts, rep):
+    """SkipLiteral - the last step of an on-demand lookup (and of a lazy parse) that lands on true / false / null -
+    evaluated with a byte memory that maps exactly [0, len): for every literal, every number of bytes before it, and
+    every cut of the text behind it (the literal ending the text included), plus near-miss spellings.  It must accept
+    exactly a complete, correctly spelled literal that lies inside the text, leave the cursor behind it, and never
+    read a byte at or behind len."""
+    from ..minterp import Interp, Unsupported, UndefinedBehaviour
+    fs = [f for f in facts.functions if f.short == 'SkipLiteral' and len(f.params) == 4]
+    rep.require(len(fs) >= 1, 'C10: SkipLiteral not found')
+    for f in fs[:1]:
+        rep.fn(f)
+        bad = None
+        n = 0
+        words = [b'true', b'false', b'null', b'trux', b'tru', b'fals', b'falsx', b'nul', b'nulx', b'f', b't', b'n', b'talse', b'frue']
+        try:
+            for w in words:
+                for lead in (0, 1, 5):
+                    for tail in (b'', b' ', b',', b'}x', b'    '):
+                        text = b' ' * lead + w + tail
+                        for cut in range(lead + 1, len(text) + 1):
+                            buf = text[:cut]
+                            it = Interp(f, facts)
+                            it.memory = {0x1000 + i: b for i, b in enumerate(buf)}
+                            pos0 = lead + 1
+                            tok = buf[lead]
+                            try:
+                                r = it.run({f.params[0]['id']: 0x1000, f.params[1]['id']: pos0, f.params[2]['id']: len(buf), f.params[3]['id']: tok}, {})
+                            except UndefinedBehaviour as ux:
+                                bad = 'text %r (len %d), literal at %d: %s' % (buf, len(buf), lead, ux)
+                                break
+                            n += 1
+                            full = w in (b'true', b'false', b'null') and len(buf) >= lead + len(w)
+                            got_ok, pos1 = bool(r[0]), r[1][f.params[1]['id']]
+                            if got_ok != full or (full and pos1 != lead + len(w)):
+                                bad = 'text %r (len %d), literal at %d: result %s, cursor %s -> %s; %s' % (
+                                    buf, len(buf), lead, got_ok, pos0, pos1, 'a complete literal inside the text must be accepted with the cursor behind it' if full else 'must be rejected')
+                                break
+                        if bad:
+                            break
+                    if bad:
+                        break
+                if bad:
+                    break
+        except Unsupported as ex:
+            raise AnalysisBroken('C10: SkipLiteral cannot be evaluated: %s' % ex)
+        rep.check(bad is None, 'E5.skip-literal', f.qn, 'accepts exactly the complete literals inside [0, len), no read at or behind len (%d evaluations)' % n, f.loc, bad or '', facts.config)
+    return 1
+
+
 def run(rep, tier):
     configs = ['K1', 'K3'] if tier == 'quick' else ['K1', 'K3', 'K4']
     for cfg in configs:
@@ -695,6 +744,7 @@ def run(rep, tier):
         clause_escape_carry(facts, rep, {'K1': ('::avx2::',), 'K3': ('::sse::',), 'K4': ('::avx2::', '::sse::')}[cfg])
         ncc = clause_container_carry(facts, rep, {'K1': ('::avx2::',), 'K3': ('::sse::',), 'K4': ('::avx2::', '::sse::')}[cfg])
         rep.require(ncc >= 1, 'C10: SkipContainer not found')
+        clause_skip_literal(facts, rep)
         nge = clause_escaped_bits(facts, rep, tier)
         rep.require(nge >= 2, 'C10: GetEscaped instantiations found: %d (>= 2 expected: block width and 64)' % nge)
         from . import c15
